@@ -368,3 +368,15 @@ fn add_response_to_resources(
         }
     }
 }
+
+/// Verification hook: crate-visible wrapper around `add_response_to_resources`
+#[cfg(simple_dns_verif)]
+pub(crate) fn verif_add_response_to_resources(
+    packet: Packet,
+    service_name: &Name<'_>,
+    full_name: &Name<'_>,
+    owned_resources: &mut ResourceRecordManager,
+    on_discovery: &mut Option<std::sync::mpsc::Sender<InstanceInformation>>,
+) {
+    add_response_to_resources(packet, service_name, full_name, owned_resources, on_discovery)
+}
